@@ -12,7 +12,16 @@ def bounds_vs_layouts(chk):
     O = I.load_layout_tables(chk)
     std = [O[(n, 4)] for n in ("flux_surface", "v_parallel", "poloidal")]
     fn = chk.func(U.PROCGRID, "compute_2d_process_grid")
-    for k, name in ((0, "max_proc1"), (1, "max_proc2")):
+    r0 = [n for n in fn.body if isinstance(n, ast.Return)]
+    names = None
+    if len(r0) == 1 and isinstance(r0[0].value, ast.Call) and src(r0[0].value.func) == "compute_2d_process_grid_from_max" \
+            and len(r0[0].value.args) == 3 and all(isinstance(a, ast.Name) for a in r0[0].value.args[:2]):
+        names = [a.id for a in r0[0].value.args[:2]]
+    if names is None:
+        chk.pat("N1-bounds-cover-layouts", fn, "return compute_2d_process_grid_from_max(b1, b2, mpi_size)", False, "", file=U.PROCGRID,
+                func="compute_2d_process_grid")
+        return
+    for k, name in ((0, names[0]), (1, names[1])):
         dims = {o[k] for o in std}
         asg = [n for n in fn.body if isinstance(n, ast.Assign) and src(n.targets[0]) == name]
         got = None
@@ -30,18 +39,21 @@ def bounds_vs_layouts(chk):
                f"distribute along it" if ok else f"{name} is the minimum over dimensions {sorted(got) if got is not None else '?'} but the "
                f"standard layouts distribute dimensions {sorted(dims)} along process direction {k}: a process can be left without "
                "points of an unchecked dimension (or a valid grid refused)", file=U.PROCGRID, func="compute_2d_process_grid")
-    r = [n for n in fn.body if isinstance(n, ast.Return)]
-    okr = len(r) == 1 and same_expr(r[0].value, "compute_2d_process_grid_from_max(max_proc1, max_proc2, mpi_size)")
-    chk.ob("N1-bounds-cover-layouts", r[0] if r else fn, "return compute_2d_process_grid_from_max(max_proc1, max_proc2, mpi_size)", okr,
-           "the two bounds and the process count are handed to the search in this order" if okr else "arguments of the search changed",
-           file=U.PROCGRID, func="compute_2d_process_grid")
+    okr = src(r0[0].value.args[2]) == "mpi_size"
+    chk.pat("N1-bounds-cover-layouts", r0[0], "return compute_2d_process_grid_from_max(bound1, bound2, mpi_size)", okr,
+            "the two bounds and the process count are handed to the search in this order", file=U.PROCGRID,
+            func="compute_2d_process_grid")
     for q in ("setupCylindricalGrid", "setupFromFile"):
         f = chk.func(U.SETUPS, q)
-        ok = contains(f, "mpi_size = layout_comm.Get_size()") and contains(f, "nprocs = compute_2d_process_grid(constants.npts, mpi_size)") \
-            and contains(f, "remapper = getLayoutHandler(layout_comm, layouts, nprocs, eta_grids)")
-        chk.ob("N1-call-site", f, f"{q}: compute_2d_process_grid(constants.npts, layout_comm.Get_size())", ok,
-               "the grid sizes and the size of the communicator the layouts are built on; the result is the handler's process grid"
-               if ok else "process-grid call site changed", file=U.SETUPS, func=q)
+        from ..core import find
+        b = find(f, "mpi_size = layout_comm.Get_size()", vars=("layout_comm",))
+        ok = b is not None and contains(f, "nprocs = compute_2d_process_grid(constants.npts, mpi_size)", vars=("mpi_size",), bind=b) is not None
+        b2 = find(f, "nprocs = compute_2d_process_grid(constants.npts, mpi_size)", vars=("mpi_size",), bind=b) if b else None
+        ok = b2 is not None and contains(f, "remapper = getLayoutHandler(layout_comm, layouts, nprocs, eta_grids)",
+                                         vars=("layout_comm", "layouts", "nprocs", "eta_grids"), bind={k: v for k, v in b2.items() if k in ("layout_comm", "nprocs")})
+        chk.pat("N1-call-site", f, f"{q}: compute_2d_process_grid(constants.npts, layout_comm.Get_size())", ok,
+                "the grid sizes and the size of the communicator the layouts are built on; the result is the handler's process grid",
+                file=U.SETUPS, func=q)
 
 
 def search_guards(chk):
@@ -70,25 +82,25 @@ def search_guards(chk):
                    "(the negation of the loop's bound condition)") if ok else \
                 (f"after `while {src(inner[0].test)}` the failure test is `{src(nxt.test)}`, not the negated bound `{want}`: a value that "
                  "stepped past the bound onto a divisor is returned as a valid grid (a process gets no point of a distributed dimension)")
-    chk.ob("N2-failure-guard", inner[0] if inner else w1, "raise exactly when no divisor <= bound exists", ok, why, file=U.PROCGRID,
-           func="compute_2d_process_grid_from_max")
-    okw = same_expr(w1.test, "nprocs2 > max_proc2") and contains(w1, "nprocs2 = mpi_size // nprocs1") and \
+    chk.pat("N2-failure-guard", inner[0] if inner else w1, "raise exactly when no divisor <= bound exists", ok, why,
+            why if (not ok and why.startswith("after `while")) else None, file=U.PROCGRID, func="compute_2d_process_grid_from_max")
+    okw = same_expr(w1.test, "nprocs2 > max_proc2", vars=("nprocs2",)) and contains(w1, "nprocs2 = mpi_size // nprocs1", vars=("nprocs1",)) and \
         contains(fn, "nprocs1 = 1\nnprocs2 = mpi_size")
-    chk.ob("N2-factorisation", w1, "nprocs2 = mpi_size // nprocs1 for a divisor nprocs1", okw,
-           "the second extent is the exact quotient by a divisor: the grid multiplies to the process count; the search continues "
-           "while the second extent exceeds its bound" if okw else "construction of the second extent changed", file=U.PROCGRID,
-           func="compute_2d_process_grid_from_max")
+    chk.pat("N2-factorisation", w1, "nprocs2 = mpi_size // nprocs1 for a divisor nprocs1", okw,
+            "the second extent is the exact quotient by a divisor: the grid multiplies to the process count; the search continues "
+            "while the second extent exceeds its bound", file=U.PROCGRID, func="compute_2d_process_grid_from_max")
     w2 = outer[1]
-    ok2 = contains(w2, "if new_n1 > min(mpi_size, max_proc1):\n    break") and contains(w2, "new_n2 = mpi_size // new_n1") and \
-        any(isinstance(n, ast.If) and same_expr(n.test, "new_n2 <= max_proc2") for n in w2.body) and \
-        contains(w2, "nprocs1 = new_n1\nnprocs2 = new_n2\nratio = new_ratio")
-    chk.ob("N2-improvement-step", w2, "candidate accepted only within both bounds, as a pair", ok2,
-           "a candidate replaces the current grid only if it respects both bounds, and both extents are replaced together" if ok2 else
-           "acceptance of an improved candidate changed", file=U.PROCGRID, func="compute_2d_process_grid_from_max")
+    ok2 = contains(w2, "if new_n1 > min(mpi_size, max_proc1):\n    break", vars=("new_n1",)) and \
+        contains(w2, "new_n2 = mpi_size // new_n1", vars=("new_n1",)) and \
+        any(isinstance(n, ast.If) and same_expr(n.test, "new_n2 <= max_proc2", vars=("new_n2",)) for n in w2.body) and \
+        contains(w2, "nprocs1 = new_n1\nnprocs2 = new_n2\nratio = new_ratio", vars=("new_n1", "new_n2", "new_ratio"))
+    chk.pat("N2-improvement-step", w2, "candidate accepted only within both bounds, as a pair", ok2,
+            "a candidate replaces the current grid only if it respects both bounds, and both extents are replaced together",
+            file=U.PROCGRID, func="compute_2d_process_grid_from_max")
     r = [n for n in fn.body if isinstance(n, ast.Return)]
-    okr = len(r) == 1 and same_expr(r[0].value, "(nprocs1, nprocs2)")
-    chk.ob("N2-factorisation", r[0] if r else fn, "return nprocs1, nprocs2", okr, "the pair is returned in (direction 0, direction 1) order",
-           file=U.PROCGRID, func="compute_2d_process_grid_from_max", nontrivial=False)
+    okr = len(r) == 1 and same_expr(r[0].value, "(nprocs1, nprocs2)", vars=("nprocs1", "nprocs2"))
+    chk.pat("N2-factorisation", r[0] if r else fn, "return nprocs1, nprocs2", okr, "the pair is returned in (direction 0, direction 1) order",
+            file=U.PROCGRID, func="compute_2d_process_grid_from_max", nontrivial=False)
 
 
 def run(chk):
